@@ -123,8 +123,20 @@ def to_tokens(eng, v, ts):
     elif isinstance(x, Agg) and x.tag == "RepInterp": to_tokens(eng, x.f[0], ts)
     elif isinstance(x, Agg) and x.tag == "Literal": ts.t.append(("l", x.f[0]))
     elif isinstance(x, Sc):
-        if x.ty == "bool": ts.t.append(("i", "true" if x.v else "false"))
-        else: ts.t.append(("l", (str(x.v) + x.ty) if not x.sym() else ("lit", x, x.ty)))
+        if x.ty == "bool":
+            if isinstance(x.v, bool): ts.t.append(("i", "true" if x.v else "false"))
+            else: ts.t.append(("i", ("boollit", x)))
+        elif x.ty == "char":
+            if x.sym(): ts.t.append(("l", ("charlit", x)))
+            else:
+                c = chr(x.v); esc = {"'": "\\'", "\\": "\\\\", "\n": "\\n", "\t": "\\t", "\r": "\\r"}.get(c, c)
+                ts.t.append(("l", "'" + esc + "'"))
+        elif x.sym(): ts.t.append(("l", ("lit", x, x.ty)))
+        else:
+            v = x.v; bits = INT_BITS[x.ty]
+            if x.ty[0] == "i" and v >> (bits - 1):      # proc_macro2 prints a negative literal as `-` followed by the magnitude
+                ts.t.append(("p", "-", False)); v = (1 << bits) - v
+            ts.t.append(("l", str(v) + x.ty))
     elif isinstance(x, StrV):
         s = x.concrete()
         ts.t.append(("l", '"' + s.replace("\\", "\\\\").replace('"', '\\"') + '"' if s is not None else ("strlit", x)))
